@@ -617,6 +617,14 @@ class MergeFlow(Engine):
                 if not self.prog.classes[e.cls].is_subclass_of(self.prog.cls('RunningOrder')) or cname == self.cname:
                     self.find_('NO-RO-CAPTURE', st, node, f'self.{name} = {self.describe(new, st)}',
                                'the message object keeps a reference into the running order')
+            # state kept on the Python objects instead of the document: it is neither serialised nor visible to a second
+            # object built over the same XML, so results start to depend on the history of the object
+            f = st.frame.func
+            if f is not None and f.name != '__init__' and f.kind not in ('property',) and not any(fr.func is not None and fr.func.kind == 'property' for fr in st.frames):
+                who = 'the running order object' if self.prog.classes[e.cls].is_subclass_of(self.prog.cls('RunningOrder')) and e.cls.split(':')[-1] != self.cname else 'the message object'
+                self.find_('NO-HIDDEN-STATE', st, node, f'<{who}>.{name} = ...',
+                           f'the merge stores {name} on {who}: the effect of the message is no longer a function of the two documents '
+                           '(it is lost by a write/read round trip and differs between objects with identical XML)')
 
     def _is_payload_list(self, itval, st) -> bool:
         """Lists of Story/Item wrappers or of message elements (not lists of indices / looked-up nodes)."""
